@@ -259,3 +259,85 @@ def _accesses(n, fn):
         d = _dotted(n.args[0])
         if d:
             yield d, 'history-read', ast.unparse(n)[:80]
+
+
+SAFE_CALLS = {'len', 'list', 'tuple', 'sorted', 'dict', 'set', 'frozenset', 'bool', 'enumerate', 'any', 'all', 'max', 'min', 'sum', 'zip',
+              'iter', 'reversed', 'isinstance', 'str', 'repr', 'print', 'map', 'filter'}
+
+
+def escapes(repo):
+    """{qualified object name: [(where, line, text)]} -- uses of a module-level mutable object through which it can come to be known
+    under another name (bound to a variable, passed to a function, returned, stored in a container, augmented in place): after
+    such a use the write sites found by name no longer bound what can change it.  Uses that cannot alias are: subscripting, calling a
+    method on it (mutating methods are write sites of their own), membership tests, iteration, operands of a binary operator (the
+    result is a new object), */** unpacking, and arguments of the copying/reducing builtins in SAFE_CALLS."""
+    objects, _, _ = inventory(repo)
+    short = {}
+    for q, desc in objects.items():
+        if desc.startswith('module-level') and 'global' not in desc:
+            short.setdefault(q.rsplit('.', 1)[-1], []).append(q)
+    out = {}
+    for mod, path in package_files(repo):
+        with open(path) as fh:
+            try:
+                tree = ast.parse(fh.read(), path)
+            except SyntaxError:
+                continue
+        imported = {}
+        for node in ast.walk(tree):
+            if isinstance(node, ast.ImportFrom):
+                for a in node.names:
+                    imported[a.asname or a.name] = a.name
+        parent = {}
+        for node in ast.walk(tree):
+            for ch in ast.iter_child_nodes(node):
+                parent[ch] = node
+        for node in ast.walk(tree):
+            if not (isinstance(node, ast.Name) and isinstance(node.ctx, ast.Load)):
+                continue
+            name = node.id
+            if '%s.%s' % (mod, name) in objects:
+                targets = ['%s.%s' % (mod, name)]
+            elif name in imported and imported[name] in short:
+                targets = short[imported[name]]
+            else:
+                continue
+            targets = [t for t in targets if t.rsplit('.', 1)[-1] in short]
+            p = parent.get(node)
+            ok = False
+            if isinstance(p, ast.Subscript) and p.value is node:
+                ok = True
+            elif isinstance(p, ast.Attribute) and p.value is node:
+                ok = True
+            elif isinstance(p, ast.Compare) and node in p.comparators:
+                ok = True
+            elif isinstance(p, (ast.For, ast.comprehension)) and p.iter is node:
+                ok = True
+            elif isinstance(p, ast.BinOp):
+                ok = True
+            elif isinstance(p, ast.Starred) or (isinstance(p, ast.keyword) and p.arg is None):
+                ok = True
+            elif isinstance(p, ast.Call) and node in p.args and isinstance(p.func, ast.Name) and p.func.id in SAFE_CALLS:
+                ok = True
+            elif isinstance(p, ast.Call) and node in p.args and isinstance(p.func, ast.Attribute) and p.func.attr in ('join', 'format'):
+                ok = True
+            elif isinstance(p, (ast.If, ast.While, ast.IfExp)) and p.test is node or isinstance(p, (ast.BoolOp, ast.UnaryOp)):
+                ok = isinstance(p, (ast.If, ast.While, ast.IfExp, ast.UnaryOp))      # `a or B` may hand B on
+            if ok:
+                continue
+            stmt = node
+            while stmt in parent and not isinstance(stmt, ast.stmt):
+                stmt = parent[stmt]
+            # a function-local name of the same spelling shadows the module-level object
+            fn = stmt
+            while fn in parent and not isinstance(fn, (ast.FunctionDef, ast.AsyncFunctionDef, ast.Lambda)):
+                fn = parent[fn]
+            if isinstance(fn, (ast.FunctionDef, ast.AsyncFunctionDef)):
+                params = {a.arg for a in fn.args.args + fn.args.kwonlyargs + fn.args.posonlyargs}
+                stores = {n.id for n in ast.walk(fn) if isinstance(n, ast.Name) and isinstance(n.ctx, ast.Store)}
+                glob = {g for n in ast.walk(fn) if isinstance(n, ast.Global) for g in n.names}
+                if name in params or (name in stores and name not in glob):
+                    continue
+            for t in targets:
+                out.setdefault(t, []).append((mod, getattr(node, 'lineno', 0), ast.unparse(stmt)[:100] if isinstance(stmt, ast.AST) else name))
+    return out
